@@ -392,11 +392,11 @@ public:
         for (auto& deferred_write : m_deferred_writes) {
             // The directory may have been removed in the meantime by a later patch removing the last file in it.
             ensure_parent_directories(deferred_write.destination_path);
-            deferred_write.make_writable(deferred_write.destination_path);
             // The file is only moved out of the way now that what replaces it is written, so that it is
             // not left missing should we never get here.
             if (deferred_write.should_backup)
                 backup.make_backup_for(deferred_write.destination_path);
+            deferred_write.make_writable(deferred_write.destination_path);
             File file(deferred_write.destination_path, std::ios_base::out | std::ios::trunc);
             deferred_write.source.write_entire_contents_to(file);
             deferred_write.permission_callback(deferred_write.destination_path);
@@ -477,9 +477,10 @@ void write_patched_result_to_file(const Patch& patch, const std::string& output_
     const auto new_mode_copy = patch.new_file_mode;
 
     // A read-only file is only made writable right before it is written to, so that it is not left that way
-    // should we give up on the patch before we get there.
+    // should we give up on the patch before we get there. This is also after it was moved to its backup (which
+    // is to keep the permissions of the file), in which case there is nothing left to make writable.
     auto make_writable = [permission_result](const std::string& path) {
-        if (permission_result.needed_to_fix_permissions)
+        if (permission_result.needed_to_fix_permissions && filesystem::exists(path))
             filesystem::permissions(path, permission_result.old_permissions | write_perm_mask);
     };
 
@@ -515,9 +516,9 @@ void write_patched_result_to_file(const Patch& patch, const std::string& output_
             deferred_writer.deferred_write(std::move(patched_file), output_file_path, should_backup, std::move(make_writable), std::move(permission_callback));
         }
     } else {
-        make_writable(output_file_path);
         if (should_backup)
             backup.make_backup_for(output_file_path);
+        make_writable(output_file_path);
         File file(output_file_path, mode | std::ios::trunc);
         patched_file.write_entire_contents_to(file);
         permission_callback(output_file_path);
